@@ -13,6 +13,16 @@ package util
 //@   requires validRat(r)
 //@   ensures s == ite(r.Denom == 1, spec.dec(r.Num), spec.dec(r.Num) + "/" + spec.dec(r.Denom))
 
+// ParseUint reads an unsigned decimal numeral: its answer is the base-10, 64-bit reading of the text and of nothing
+// else (C11: a duration written with leading zeros is still a decimal; callers execute the body, so they keep the
+// structural reading of canonical decimals)
+//@ func ParseUint returns (u, err)
+//@   inline
+//@   pure
+//@   ensures (err == nil) == spec.parse10_ok(s)
+//@   ensures err == nil ==> u == spec.parse10_val(s)
+//@   ensures err != nil ==> u == 0
+
 //@ func lemmaC10Rat returns (x, err)
 //@   inlines util.Rat.String
 //@   requires validRat(r)
